@@ -13,6 +13,7 @@ C16-adj     compute_form_adjoint conjugates every integrand and swaps both numbe
             arguments; the ordering guards raise.
 C16-act     compute_form_action replaces the last (highest numbered) argument; compute_energy_norm is the
             action applied twice.
+C16-key     shared MEMO-KEY rule over formtransformations.py (e.g. a label-keyed memo of extracted parts).
 """
 
 from __future__ import annotations
